@@ -22,6 +22,7 @@ import numpy as np
 from renormalizer import Model, Mps, Mpo, Op, BasisHalfSpin, BasisSHO, BasisSimpleElectron
 from renormalizer.mps import MpDm
 from renormalizer.mps.lib import compressed_sum
+from renormalizer.mps.mps import expand_bond_dimension_general
 from renormalizer.model import HolsteinModel, Mol, Phonon
 from renormalizer.utils import EvolveConfig, EvolveMethod, CompressConfig, CompressCriteria, Quantity
 def chain_world(seed):
@@ -34,9 +35,12 @@ def chain_world(seed):
     ns["h1"] = Mpo(model, offset=Quantity(0.37))
     ns["o1"] = Mpo(model, Op(r"a^\dagger a", 0))
     ns["o2"] = Mpo(model, Op(r"b^\dagger b", (1, 0)))
-    def fresh_mps(m, coeff, cplx):
+    def fresh_mps(m, coeff, cplx, tnorm):
+        # UN-NORMALISED tensors (norm tnorm) and NON-UNIT prefactors: several in-place slips are no-ops on
+        # normalised states with prefactor 1
         s = Mps.random(model, 1, m, percent=1.0)
         s = s.canonicalise().canonicalise()
+        s[s.qnidx] = s[s.qnidx].array * tnorm
         if cplx:
             s = s.to_complex()
             for i in range(len(s)):
@@ -45,10 +49,12 @@ def chain_world(seed):
         s.compress_config = CompressConfig(CompressCriteria.fixed, max_bonddim=3)
         s.evolve_config = EvolveConfig(EvolveMethod.tdvp_ps)
         return s
-    ns["a"] = fresh_mps(4, 0.8, False)
-    ns["b"] = fresh_mps(3, 1.0, False)
-    ns["c"] = fresh_mps(4, 0.6 - 0.3j, True)
+    ns["a"] = fresh_mps(4, 0.5, False, 3.0)
+    ns["b"] = fresh_mps(3, -1.7, False, 0.6)
+    ns["c"] = fresh_mps(4, 0.6 - 0.3j, True, 2.0)
     d = MpDm.max_entangled_ex(model)
+    d[d.qnidx] = d[d.qnidx].array * 1.5
+    d.coeff = 0.7
     d.compress_config = CompressConfig(CompressCriteria.fixed, max_bonddim=4)
     d.evolve_config = EvolveConfig(EvolveMethod.tdvp_ps)
     ns["d"] = d
@@ -64,18 +70,19 @@ def tree_world(seed):
     ns = {"basis_tree": tree}
     ns["h0"] = TTNO(tree, terms)
     ns["o1"] = TTNO(tree, [Op(r"a^\dagger a", "e0")])
-    def fresh(m, coeff, cplx):
+    def fresh(m, coeff, cplx, tnorm):
         s = TTNS.random(tree, 1, m)
         s.canonicalise()
+        s.root.tensor = s.root.tensor * tnorm
         if cplx:
             s = s.to_complex()
             s.root.tensor = s.root.tensor * np.exp(0.4j)
         s.coeff = coeff
         s.compress_config = CompressConfig(CompressCriteria.fixed, max_bonddim=3)
         return s
-    ns["a"] = fresh(4, 0.8, False)
-    ns["b"] = fresh(3, 1.0, False)
-    ns["c"] = fresh(4, 0.6 - 0.3j, True)
+    ns["a"] = fresh(4, 0.5, False, 3.0)
+    ns["b"] = fresh(3, -1.7, False, 0.6)
+    ns["c"] = fresh(4, 0.6 - 0.3j, True, 2.0)
     return ns
 '''
 
